@@ -163,11 +163,12 @@ PROPS["C11"] = {
 
 
 PROPS["C10"] = {
-    "functions": ["_event.Signal.dispatch", "_event.Signal._subscribe", "_event.Signal._check_is_bound_signal", "_event.Signal.__get__"],
+    "functions": ["_event.Signal.dispatch", "_event.Signal._subscribe", "_event.Signal._check_is_bound_signal", "_event.Signal.__get__",
+                  "_event.stream_events", "_event.wait_event", "_event.Signal.wait_event"],
     "trusted": ["A-MS anyio memory object stream (send_nowait: closed -> ClosedResourceError, no receiver -> BrokenResourceError, room -> "
                 "buffered/handed over, else WouldBlock; never suspends; FIFO, each item once)", "A-CM contextmanager generator protocol",
                 "A-WR weakref", "A-SUB1 a subscription removes only its own stream", "warnings.warn does not raise", "pyvc list model"],
-    "assumptions": ["stream_events / filter_events / wait_event (async generator + nested exit stack) are outside the deductive reach of this build: "
+    "assumptions": ["filter_events and the unwinding of stream_events' exit stack (symbolic depth) are outside the deductive reach of this build: "
                     "covered by the bounded harness only; the composition lemma (FIFO + bracket => exact subsequence) rests on A-MS",
                     "I_sig (open, distinct send streams in every subscriber list) is a precondition of dispatch"],
     "undecided": ["promptness (wait_event returns as soon as ...)"],
@@ -176,8 +177,10 @@ PROPS["C10"] = {
                   "or sent; event stamped (source, topic, time) before the first send; exactly one non-blocking send attempt per subscriber of "
                   "this signal and none for anybody else (frame); BrokenResourceError/WouldBlock swallowed, one SignalQueueFull warning per full "
                   "queue, ClosedResourceError impossible under I_sig; never suspends. Signal._subscribe is verified as a bracket (append, yield, "
-                  "remove of the same stream on every exit). stream_events/wait_event/filter_events: bounded harness (random histories).",
-    "level_note": "Not counted as proved: stream_events, filter_events, wait_event (bounded, scope in evidence). Trusted: A-MS, A-CM, A-WR, A-SUB1.",
+                  "remove of the same stream on every exit). stream_events is verified up to its yield: 'the listening starts when this function is called' - "
+                  "on entry, with no suspension point passed, this call's send stream is in the subscriber list of every given (bound) signal; wait_event "
+                  "enters it before its first suspension. filter_events (which events the stream yields) and the exit half of stream_events: bounded harness.",
+    "level_note": "Not counted as proved: filter_events, the exit half of stream_events (bounded, scope in evidence). Trusted: A-MS, A-MS0, A-CM, A-SEQ, A-WR, A-SUB1.",
     "design_ref": "DESIGN.md section 5 (C10)",
     "technique": "contract-based deductive verification of Signal.dispatch and Signal._subscribe (pyvc + z3) + bounded model-based harness for the stream_events/wait_event wrappers",
     "explanation": "dispatch: one-send-attempt-per-subscriber, only-own-subscribers-touched, stamped-before-sending, never-suspends; _subscribe bracket. "
@@ -239,8 +242,9 @@ COMP_TRUSTED = CTX_TRUSTED + [
     "its _child_components is None or the dict written by add_component",
     "A-PLUG a PluginContainer's cache/entry-point dictionaries are private to it", "A-REF resolve_reference (import + getattr walk)",
     "A-BADARG merge_config raises before writing when given a non-dict",
-    "A-WAIT Signal.wait_event subscribes before its first suspension and returns the first accepted event dispatched afterwards "
-    "(bounded evidence only: C10 harness)",
+    "A-NEXT the filtering generator of stream_events (3-line async generator filter_events over the receive end) yields, in order, the events "
+    "received on this call's stream that the filter accepts (bounded evidence: C10 harness); A-MS0 create_memory_object_stream gives a fresh open pair; "
+    "A-SEQ a list of signals is read like the tuple of its items; A-STREAM-EXIT leaving stream_events unsubscribes and closes (bounded)",
     "lemma:frame (proved every run, listed under functions): writes confined to private containers preserve every class invariant and guarantee",
 ]
 COMP_ASSUME = CTX_ASSUME + [
@@ -291,6 +295,7 @@ PROPS["C07"] = {
 }
 PROPS["C06"] = {
     "functions": ["_component.ComponentContext.get_resource", "_component.ComponentContext.get_resource.<lambda@0>",
+                  "_event.Signal.wait_event", "_event.wait_event", "_event.stream_events",
                   "_context.Context.get_resource", "_context.Context.add_resource", "_context.Context.add_resource_factory",
                   "_event.Signal.dispatch", "_event.Signal._subscribe"],
     "clauses": lambda q, o: q.startswith("_component.") or q.startswith("_event.") or any(
@@ -306,9 +311,11 @@ PROPS["C06"] = {
                   "call in between - calls wait_event on the backing context's resource_added signal with a filter that accepts exactly the events "
                   "announcing the requested name and a type tuple containing the requested type (the lambda is verified as its own function), then "
                   "looks up again and returns that result; add_resource/add_resource_factory insert before they dispatch, dispatch makes one send attempt "
-                  "per subscriber, _subscribe removes exactly its own stream. Assumed (A-WAIT) and bounded: wait_event subscribes before its first "
-                  "suspension.",
-    "level_note": "Not counted as proved: wait_event/stream_events (bounded: C10 and component harness). KNOWN-FINDING F9.",
+                  "per subscriber, _subscribe removes exactly its own stream; Signal.wait_event delegates to wait_event([self], filter), which enters "
+                  "stream_events before its first suspension, and stream_events - verified up to its yield, for every sequence of bound signals - has "
+                  "subscribed this call's new send stream to every given signal without passing a suspension point or calling foreign code. "
+                  "Bounded: what the filtering generator yields (A-NEXT), the exit half of stream_events.",
+    "level_note": "Not counted as proved: the filtering generator filter_events and the exit half of stream_events (bounded: C10 and component harness). KNOWN-FINDING F9.",
     "design_ref": "DESIGN.md section 5 (C06)",
     "technique": "contract-based deductive verification of ComponentContext.get_resource, its filter lambda, the publishing side and Signal.dispatch/_subscribe (pyvc + z3) + bounded harness",
     "explanation": "required:no-suspension-between-the-miss-and-the-subscription, required:waits-with-the-name-and-type-filter, accepts-exactly-name-and-type-matches, "
